@@ -1170,6 +1170,10 @@ func CheckSignatureFromKey(publicKey interface{}, algo SignatureAlgorithm, signe
 		}
 		return
 	case ed25519.PublicKey:
+		// ZCrypto - ed25519.Verify panics on a key of the wrong length.
+		if len(pub) != ed25519.PublicKeySize {
+			return errors.New("x509: wrong Ed25519 public key size")
+		}
 		if !ed25519.Verify(pub, digest, signature) {
 			return errors.New("x509: Ed25519 verification failure")
 		}
@@ -1449,11 +1453,19 @@ func parsePublicKey(algo PublicKeyAlgorithm, keyData *publicKeyInfo) (interface{
 		if len(p) > ed25519.PublicKeySize {
 			return nil, errors.New("x509: trailing data after Ed25519 data")
 		}
+		// ZCrypto - a shorter key must not get through either: ed25519.Verify
+		// panics on any length other than 32.
+		if len(p) != ed25519.PublicKeySize {
+			return nil, errors.New("x509: wrong Ed25519 public key size")
+		}
 		return p, nil
 	case X25519:
 		p := X25519PublicKey(asn1Data)
 		if len(p) > 32 {
 			return nil, errors.New("x509: trailing data after X25519 public key")
+		}
+		if len(p) != 32 {
+			return nil, errors.New("x509: wrong X25519 public key size")
 		}
 		return p, nil
 	default:
